@@ -78,10 +78,15 @@ claim("C10", "other",
       "full although dt = fl(1/fs)), equals floor(L/dt) whenever L/dt is at least 2e-6 away from every integer; ValueError iff the record has "
       "fewer than k samples; otherwise N // k windows, window j holds the record's samples j*k .. min(j*k+k, N-1) unaltered (k+1 samples, "
       "boundary sample shared, only a last window ending with the record is one short), same dt, discarded tail < k; loop invariant over a "
-      "symbolic-length list of window objects; record not modified. Bounded (labelled): hvsr_preprocess == orient -> zero-phase Butterworth on "
-      "the whole record -> split -> detrend per window against scipy directly; SeismicRecording3C.split splits the three components identically.",
+      "symbolic-length list of window objects; record not modified. SeismicRecording3C.split: window j of the recording consists of windows j "
+      "of the three components of the same split, orientation carried over (TimeSeries.split through its contract). hvsr_preprocess, for every "
+      "number of recordings and of windows per recording (orientation set or None, window length and detrend mode set): the result is the "
+      "windows of all recordings in order, and each window's content is DETREND(WINDOW_j(BUTTER(ORIENT(content of its recording)))) - the "
+      "documented order of the steps, as a term over uninterpreted step functions kept in a ghost content map that the method models update "
+      "(nested loop invariants; window offsets as prefix sums with base/step lemmas). Bounded (labelled): the same pipeline against scipy "
+      "numerically (what each step computes), the configurations without split / detrend, psd_preprocess.",
       TB + "Float model only for / and + inside split; int/int quotients below 2**53 treated as exact. scipy butter/sosfiltfilt/detrend external.",
-      "contract-based deductive verification with a floating-point error model (z3+cvc5) + bounded native pipeline comparison", "DESIGN.md 5/C10")
+      "contract-based deductive verification (floating-point error model for split; ghost content map for the step order; z3+cvc5) + bounded native pipeline comparison", "DESIGN.md 5/C10")
 
 claim("C04", "other",
       "Proof: SeismicRecording3C.orient_sensor_to is, for every recording and every pair of orientations, the pointwise rotation ns' = ew sin(d) + ns cos(d), "
